@@ -8,7 +8,7 @@ from ..lib import coqrun, driver, env, proofs, report
 from ..translate import prosody, sc_tables
 
 PROP = "C14"
-PROP_BITS = (1, 2, 3, 4)
+PROP_BITS = (1, 2, 3, 4, 5)
 CASE_TYPE = "seq_case"
 CODE_FN = "seq_case_code"
 
@@ -95,6 +95,9 @@ def main(tier, seed, prop=PROP, prop_bits=PROP_BITS):
         "and an independent reader that must agree)",
         "modelled, not verified: the Python functions named above; Python str/list primitives (+=, insert, slicing, "
         "split, substring test, int()) as rendered in the models",
+        "aliasing is observed on the implementation side: every list argument is one Python object that is passed to all "
+        "calls of a case and compared afterwards with the case's own copy (bit 5); class2tokens is called twice "
+        "(global and local) on the same objects",
         "not modelled: Unicode normalisation of user input, asjp2tokens, clean_sequence, non-str inputs"]
     run.assumptions += ["prosodic weights are compared exactly via repr(): no arithmetic is performed on them",
                         "tokens2class reads rcParams['stress'] / rcParams['diacritics'] (the arguments are overridden)"]
